@@ -1,13 +1,13 @@
 (* Model/Cleaner.v — validators/error_cleaner.py ErrorCleaner.odk_validate, function for function:
    _replace_xpath_with_tokens, _cleanup_errors, _remove_java_content, _join_final.
-   ERROR_MESSAGE_REGEX (pinned) is a slash followed by one or more of [a-z0-9-_] (case-insensitive), then one or
-   more further such segments; re.sub scans left to right, non-overlapping, greedy. *)
-Require Import PX.Base.Str PX.Base.PyStr.
+   ERROR_MESSAGE_REGEX (pinned by the translator) is a slash followed by one or more segment characters, then one or more further such
+   segments; a segment character is a XML name character (Model/Names.v nch, the classes of the NAME lexer rule) other than the dot;
+   re.sub scans left to right, non-overlapping, greedy. *)
+Require Import PX.Base.Str PX.Base.PyStr PX.Model.Names.
 Local Open Scope N_scope.
 
 Definition SLASHC : N := 47.
-Definition segc (c : N) : bool :=
-  ((97 <=? c) && (c <=? 122)) || ((65 <=? c) && (c <=? 90)) || ((48 <=? c) && (c <=? 57)) || (c =? 45) || (c =? 95).
+Definition segc (c : N) : bool := nch c && negb (c =? 46).
 (* one segment: slash + at least one segment char *)
 Definition eat_seg (s : str) : option (str * str) :=
   match s with
@@ -97,8 +97,17 @@ Fixpoint remove_all (fuel : nat) (old s : str) : str :=
            end
   end.
 Definition strip_prefix_all (p line : str) : str := if starts_with p line then remove_all (length line) p line else line.
+(* the tail of a stack trace: "... 12 more" (after strip(): the literal "... ", ASCII digits, the literal " more") *)
+Definition s_dots : str := [46;46;46;32].
+Definition s_more : str := [32;109;111;114;101].
+Definition is_ascii_digit (c : N) : bool := (48 <=? c) && (c <=? 57).
+Definition is_elided_frames (line : str) : bool :=
+  let f := py_strip line in
+  starts_with s_dots f && ends_with s_more f &&
+  (let mid := firstn (length f - 9) (skipn 4 f) in
+   match mid with [] => false | _ => forallb is_ascii_digit mid end).
 Definition remove_java_content (line : str) : option str :=
-  if contains s_java_colon line || contains s_tab_at line then None
+  if contains s_java_colon line || contains s_tab_at line || is_elided_frames line then None
   else Some (strip_prefix_all pre_parse (strip_prefix_all pre_npe (strip_prefix_all pre_unhandled (strip_prefix_all pre_runtime line)))).
 Definition s_jarfile : str := [69;114;114;111;114;58;32;85;110;97;98;108;101;32;116;111;32;97;99;99;101;115;115;32;106;97;114;102;105;108;101].
 Definition clean_lines (msg : str) : list str :=
